@@ -5,9 +5,9 @@ ROOT = os.path.dirname(os.path.dirname(os.path.abspath(__file__)))
 
 SIM = "deterministic simulation with fault injection"
 CLAIMED = {
- "C01": ("NET (and one run in six RT: slow / blocking consumers, worker-select control, preemptions): N real MainLoops + Byzantine adversary + faults; agreement invariant at every commit callback", "3 C01", SIM + ": seeded schedule/fault/adversary search, invariant at every commit"),
- "C03": ("NET (and one run in six RT): at every commit callback the pair is re-validated by another correct node's real strict validator and by an independent reference predicate", "3 C03", SIM + ": cross-validation at commit"),
- "C04": ("NET (and one run in six RT: validation calls that block and end in a rejection, election timeouts while a consumer call is in progress, on one or all nodes) with consumer verdicts and poison blocks; history check at commit", "3 C04", SIM + ": history oracle at commit"),
+ "C01": ("NET (and one run in fifteen RT: slow / blocking consumers, worker-select control, preemptions): N real MainLoops + Byzantine adversary + faults; agreement invariant at every commit callback", "3 C01", SIM + ": seeded schedule/fault/adversary search, invariant at every commit"),
+ "C03": ("NET (and one run in fifteen RT): at every commit callback the pair is re-validated by another correct node's real strict validator and by an independent reference predicate", "3 C03", SIM + ": cross-validation at commit"),
+ "C04": ("NET (and one run in fifteen RT: validation calls that block and end in a rejection, election timeouts while a consumer call is in progress, on one or all nodes) with consumer verdicts and poison blocks; history check at commit", "3 C04", SIM + ": history oracle at commit"),
  "C07": ("NET: reference NEW_VIEW-certificate predicate evaluated on the delivered history whenever a node acts in a view above 0", "3 C07", SIM + ": reference predicate over delivered history"),
  "C08": ("NET: influence (store / send / view change) of every delivered message compared with an independent authenticity predicate", "3 C08", SIM + ": influence => predicate"),
  "C09": ("NET: every outgoing VIEW_CHANGE / NEW_VIEW of a correct node checked against what was delivered to it", "3 C09", SIM + ": send-stream history check"),
